@@ -274,9 +274,11 @@ class Render:
                 if pr["struct"]:
                     td = touch(pr["outs"][0])
                     have = {f["name"] for f in td["fields"]}
+                    xf = (p.get("extra_fields") or {}).get(pr["outs"][0] // 2) or (p.get("extra_fields") or {}).get(str(pr["outs"][0] // 2))
                     for fn, a in zip(pr["fields"], pr["args"]):
                         if fn not in have:
-                            td["fields"].append({"name": fn, "t": a, "tag": "", "sp": True})
+                            tag = xf["tag"] if xf and xf["name"] == fn else ""
+                            td["fields"].append({"name": fn, "t": a, "tag": tag, "sp": True})
             for v in s["values"]:
                 touch(v["out"])
             for f in s["fields"]:
